@@ -339,8 +339,8 @@ def scenario_main(cx, rng, ndisks, per_byte, nextra, share=None):
         else:
             data = bytes(rng.getrandbits(8) for _ in range(rng.choice([5, 1024, 1500, 2049])))
         nsec = rng.choice([1, 999999999, rng.randrange(1, 10 ** 9)])
-        if not (set(nm) & set(b':\n\r')) and rng.random() < 0.1:
-            nsec = 0                                    # zero sub-second stamps only on names that cannot forge a line here
+        if rng.random() < 0.15:
+            nsec = 0                                    # zero sub-second stamps: logged by status with the (escaped) name
         tree.write(di, sub, data, (now - rng.randrange(0, 10 ** 9)) * 10 ** 9 + nsec)
         if rng.random() < 0.12:
             ln = sub + b'.l\nnk'
@@ -370,6 +370,7 @@ def scenario_main(cx, rng, ndisks, per_byte, nextra, share=None):
         ndisk.append(p)
     bm = max(ndisk)
     verify_status(cx, tree, 'fresh', {'unsynced': set(), 'unscrubbed': set(range(bm)), 'bad': set(), 'blockmax': bm})
+    check_zerosub_log(cx, 'zerosub_main', open(os.path.join(tree.root, 'status.log'), 'rb').read(), walked, {})
     # pool with pre-existing contents
     pb = os.fsencode(tree.pool)
     os.makedirs(os.path.join(pb, b'stale dir/in\nner'))
@@ -492,34 +493,66 @@ def scenario_pool_rerun(cx, rng, ndisks=2, share=None):
     verify_pool(cx, tree, 'rerun', walked, [], share)
 
 
-def scenario_zerosub(cx):
-    """the raw name in the zerosubsecond: lines of the status log"""
-    root = mkscratch('c20z.')
-    tree = Tree(root, 1)
-    forged = b'x: \nsummary:has_bad:7:7:7'
-    tree.write(0, forged, b'z' * 100, 1600000000 * 10 ** 9)
-    tree.write(0, b'plain', b'y' * 100, 1600000001 * 10 ** 9)
-    tree.write(0, b'subsec', b'w' * 100, 1600000001 * 10 ** 9 + 5)
-    rc, out, logb, err = tool(cx.exe, tree, ['sync'])
-    rc, out, logb, err = tool(cx.exe, tree, ['status'], 'status.log')
-    walked = [(n, ) + walk_disk(d) for n, d in tree.disks]
-    mo = cx.m(['zerosub ' + ' '.join(state_tokens(walked))])[0]
-    mbytes = unhx(mo[3:].split('|')[0]) if mo.startswith('ok') else None
-    cx.evals += 1
+def zerosub_expected(walked):
+    """what status must log: per disk, in the order of the file list, the files with a zero (or invalid) sub-second stamp;
+    the first 49 with ' ', the 50th with ' (more follow)', then nothing"""
+    exp = []
+    for n, fs, ls in walked:
+        k = 0
+        for sub, size, s_, ns_, ino, data in fs:
+            if ns_ == 0:
+                k += 1
+                if k < 50:
+                    exp.append((n.encode(), sub, b' '))
+                elif k == 50:
+                    exp.append((n.encode(), sub, b' (more follow)'))
+    return exp
+
+
+def check_zerosub_log(cx, step, logb, walked, replay):
+    """the zerosubsecond: lines, read by the model parser, name the right files; the model prints the same bytes"""
+    recs = parse_records(cx.m(['parselog ' + hx(logb)])[0])
+    got = [(r[1][1], py_unesc_tag(r[1][2]), r[1][3]) for r in recs if r[0] == 'O' and r[1][0] == b'zerosubsecond' and len(r[1]) == 4]
+    nz = sum(1 for r in recs if r[0] == 'O' and r[1][0] == b'zerosubsecond')
+    exp = zerosub_expected(walked)
+    cx.evals += len(exp)
     cx.kinds.add('status_zerosub')
-    if mbytes is None or mbytes not in logb:
-        if b'zerosubsecond:d1:plain: \n' in logb and b'zerosubsecond:d1:' + forged + b': \n' not in logb:
-            cx.chk.notes.append('status no longer logs raw names in zerosubsecond: lines; model of status.c:146-148 is stale')
-            cx.bad('zerosub_model', 'the zerosubsecond model prints other bytes than status.c', {'model': mo[:600], 'log': logb[-1500:].decode('latin1')}, drift=True)
-        else:
-            cx.bad('zerosub_model', 'the zerosubsecond model prints other bytes than status.c', {'model': mo[:600], 'log': logb[-1500:].decode('latin1')}, drift=True)
-        return
-    lines = logb.split(b'\n')
-    if b'summary:has_bad:7:7:7: ' in lines:
-        cx.chk.violation('status_zerosub', 'status -l: a file with a zero sub-second time stamp named %r puts the forged line "summary:has_bad:7:7:7: " into the log '
-                         '(status.c:146-148 prints file->sub without esc_tag); Coq: C20_status_zerosub_refuted' % forged,
-                         {'scenario': 'zerosub', 'file_name_hex': forged.hex(), 'mtime_ns': 1600000000 * 10 ** 9, 'commands': ['sync', 'status -l status.log'],
-                          'forged_log_line': 'summary:has_bad:7:7:7: '}, finding_key=KEY_ZEROSUB)
+    if got != exp or nz != len(exp):
+        cx.bad(step, 'status -l does not log exactly the files with a zero sub-second time stamp (names read back by the model parser): expected %r, got %r (%d zerosubsecond lines)'
+               % (exp[:4], got[:4], nz), dict(replay, expected=repr(exp)[:2000], got=repr(got)[:2000]))
+        return False
+    mo = cx.m(['zerosub ' + ' '.join(state_tokens(walked))])[0]
+    parts = [unhx(x) for x in mo[3:].split('|')] if mo.startswith('ok') else None
+    if parts is None or any(p_ not in logb for p_ in parts):
+        cx.bad(step + '_model', 'the zerosubsecond model prints other bytes than status.c although status.c logs the right names', {'model': mo[:800]}, drift=True)
+    return True
+
+
+def scenario_zerosub(cx):
+    """regression cases of the repaired finding F-C20-status-zerosubsecond-raw: names shaped like log lines on files with a
+    zero sub-second time stamp must not forge a line of the status log"""
+    cp = os.path.join(VERIF, 'corpus', 'C20', 'zerosub_regression.json')
+    cases = json.load(open(cp))['cases']
+    for ci, case in enumerate(cases):
+        root = mkscratch('c20z.')
+        tree = Tree(root, 1)
+        forged = bytes.fromhex(case['name_hex'])
+        tree.write(0, forged, b'z' * 100, case['mtime_ns'])
+        tree.write(0, b'plain', b'y' * 100, 1600000001 * 10 ** 9)
+        tree.write(0, b'subsec', b'w' * 100, 1600000001 * 10 ** 9 + 5)
+        rc, out, logb, err = tool(cx.exe, tree, ['sync'])
+        rc, out, logb, err = tool(cx.exe, tree, ['status'], 'status.log')
+        replay = {'corpus_case': case, 'corpus_file': 'corpus/C20/zerosub_regression.json', 'commands': ['sync', 'status -l status.log'],
+                  'other_files': {'plain': 'mtime nsec 0', 'subsec': 'mtime nsec 5'}}
+        if case['forged_line'].encode() in logb.split(b'\n'):
+            cx.chk.violation('status_zerosub_%d' % ci, 'status -l: a file with a zero sub-second time stamp named %r puts the forged line %r into the log '
+                             '(the zerosubsecond: tag must print the name through esc_tag)' % (forged, case['forged_line']),
+                             dict(replay, scenario='zerosub', log_excerpt=b'\n'.join(l for l in logb.split(b'\n') if l.startswith((b'zerosub', b'summary:has')))[:1500].decode('latin1')))
+            continue
+        walked = [(n, ) + walk_disk(d) for n, d in tree.disks]
+        check_zerosub_log(cx, 'zerosub_%d' % ci, logb, walked, replay)
+        if len(cx.samples) < 2:
+            cx.samples.append({'cmd': 'status', 'zerosub_name': repr(forged), 'forged_line_absent': True})
 
 
 # ---------------------------------------------------------------------------------------------------------
@@ -647,7 +680,8 @@ def main(tier, replay=None):
         chk.notes.append('translator: ' + '; '.join(regen_msgs))
     chk.notes.append('F-C20 as expected by the design (stdout of list ambiguous for names with a newline) is NOT real: C20_term_framing proves the record stream '
                      'uniquely readable (spaces inside names are always escaped); only "one line = one entry" fails (C20_term_line_framing_refuted). '
-                     'Real finding instead: ' + KEY_ZEROSUB)
+                     'The real finding found instead (' + KEY_ZEROSUB + ', raw names in the zerosubsecond: lines of status -l) is repaired in the repo; '
+                     'its witnesses run as regression cases from corpus/C20/zerosub_regression.json')
     if ob['failed'] and not chk.violations:
         chk.violation('obligation', 'proof obligation of C20 no longer checks: %s' % ob['failed'][0],
                       {'theorem_file': 'coq/Props/Properties_C20.v', 'failed': ob['failed'], 'log_tail': ob['log'][-1500:]}, no_input=True)
